@@ -137,6 +137,9 @@ def gen_case(rng, dom):
                 r = rng.choice(cur_g)
                 cur_g.remove(r)
                 edits.append(("g-", r))
+        if rng.random() < 0.15:
+            # the reload happens while auto_build_role_links is off (the ordering does not depend on the role managers)
+            edits.append(("cfg", ["auto_build", False]))
         rounds.append(edits)
     return dict(dom=dom, rounds=rounds)
 
@@ -178,7 +181,12 @@ def run_impl(case):
     e.enable_auto_save(False)
     obs = []
     for edits in case["rounds"]:
+        auto_build = True
+        e.enable_auto_build_role_links(True)
         for kind, r in edits:
+            if kind == "cfg":
+                auto_build = bool(r[1])
+                continue
             if kind == "p+":
                 e.add_policy(*r)
             elif kind == "p-":
@@ -192,7 +200,11 @@ def run_impl(case):
         stored_g = [[x.strip() for x in l.split(",")][1:] for l in ad.lines if l.startswith("g,")]
         o = dict(stored_p=stored_p, stored_g=stored_g)
         try:
+            e.enable_auto_build_role_links(auto_build)
             e.load_policy()
+            if not auto_build:
+                e.enable_auto_build_role_links(True)
+                e.build_role_links()
             o["policy"] = [list(r) for r in e.get_policy()]
             o["gpolicy"] = [list(r) for r in e.get_grouping_policy()]
             try:
